@@ -93,3 +93,9 @@ VARIANTS += [
          old="        with self._thread_lock:\n            self._write_log(JournalOperation.DELETE_STUDY, {\"study_id\": study_id})\n            self._sync_with_backend()\n",
          new="        with self._thread_lock:\n            self._sync_with_backend()\n            self._replay_result.get_study(study_id)\n            self._write_log(JournalOperation.DELETE_STUDY, {\"study_id\": study_id})\n            self._sync_with_backend()\n"),
 ]
+
+VARIANTS += [
+    dict(id="c03-journal-create-returns-newest-of-study", prop="C03", file=JS, expect="R03.9",
+         old="            trial_id = self._replay_result._last_created_trial_id_by_this_process\n",
+         new="            trial_id = self._replay_result._study_id_to_trial_ids[study_id][-1]\n"),
+]
